@@ -190,6 +190,9 @@ var stepFailed bool
 // failWithStreamError: the failing feature returns a stream-level error value.
 var failWithStreamError bool
 
+// failInParse: the failing step of the feature is Parse (initiator side).
+var failInParse bool
+
 func failingVoluntary() xmpp.StreamFeature {
 	return xmpp.StreamFeature{
 		Name: xml.Name{Space: "urn:vf", Local: "f"},
@@ -198,6 +201,14 @@ func failingVoluntary() xmpp.StreamFeature {
 			return false, e.EncodeToken(start.End())
 		},
 		Parse: func(ctx context.Context, d *xml.Decoder, start *xml.StartElement) (bool, interface{}, error) {
+			if failInParse {
+				// the advertisement is well-formed but the feature cannot make sense of it
+				if err := d.Skip(); err != nil {
+					return false, nil, err
+				}
+				stepFailed = true
+				return false, nil, fmt.Errorf("voluntary feature cannot parse its advertisement")
+			}
 			return false, nil, d.Skip()
 		},
 		Negotiate: func(ctx context.Context, s *xmpp.Session, data interface{}) (xmpp.SessionState, io.ReadWriter, error) {
@@ -303,6 +314,11 @@ var handshakes = []handshake{
 		})(f)
 		r.stepErr = stepFailed
 		return r
+	}},
+	{"failing-voluntary-parse-then-bind-initiator", func(f fault) result {
+		failInParse = true
+		defer func() { failInParse = false }()
+		return handshakeByName("failing-voluntary-then-bind-initiator").run(f)
 	}},
 	{"failing-voluntary-stream-error-then-bind-initiator", func(f fault) result {
 		failWithStreamError = true
